@@ -1,3 +1,4 @@
+import Dawgs.Props.C01
 import Dawgs.Props.C03
 import Dawgs.Props.C09
 import Dawgs.Props.C16
